@@ -37,6 +37,14 @@ def _shapes(tier):
                             for ks, ts in (variants if M <= 2 else (variants[n % 3],)):
                                 out.append((M, tuple(lens), opening, pickup, final, ks, ts))
                             n += 1
+        # the first data cell of the score as chord / rest / decorated note (what opens a measure without an opening barline)
+        for M in (1, 2):
+            for lens in itertools.product((0, 1, 2), repeat=M):
+                for opening in (0, 1):
+                    for pickup in (0, 1):
+                        for final in (0, 1):
+                            for fk in (1, 2, 3):
+                                out.append((M, tuple(lens), opening, pickup, final, 1 if fk != 1 else 2, 0, fk))
         return out
     for M in range(1, maxM + 1):
         lens_opts = itertools.product((0, 1, 2), repeat=M) if (tier == 'quick' or M <= 3) else \
@@ -46,7 +54,8 @@ def _shapes(tier):
                 for pickup in ((0, 1) if tier == 'quick' else (0, 1, 2)):
                     for final in (0, 1):
                         for ks, ts in ((1, 0), (2, 0), (1, 1)) + (((2, 1),) if tier != 'quick' else ()):
-                            out.append((M, tuple(lens), opening, pickup, final, ks, ts))
+                            for fk in (0, 1, 2, 3):
+                                out.append((M, tuple(lens), opening, pickup, final, ks, ts, fk))
     return out
 
 
@@ -128,7 +137,7 @@ def _b_body(i):
 
 def _desc(shape, a=None, b=None):
     sh = SHAPES[shape]
-    d = {'shape(M,lens,opening,pickup,final,kern_spines,text_spine)': list(sh), 'text': rm.build(*sh).text}
+    d = {'shape(M,lens,opening,pickup,final,kern_spines,text_spine[,first_kind])': list(sh), 'text': rm.build(*sh).text}
     if a is not None:
         d.update(from_measure=a, to_measure=b)
     return d
@@ -143,7 +152,7 @@ OBLIGATIONS = [
        budget_s={'quick': 170, 'thorough': 2400}, opaque_numbers=True, untrace=UNTRACE,
        witnesses=[{'shape': 5, 'a': 1, 'b': 1}, {'shape': 40, 'a': -3, 'b': 1}], min_confirmed=300,
        symbolic='from_measure, to_measure: unbounded integers', enumerated='score shape selector',
-       bounds={'quick': 'M<=2 barline-delimited measures x 0..2 data rows each (M=3: 0..1 rows, spine variant rotating) x opening barline x pickup 0..1 x final barline x {1 kern, 2 kern, kern+text}',
+       bounds={'quick': 'M<=2 barline-delimited measures x 0..2 data rows each (M=3: 0..1 rows, spine variant rotating) x opening barline x pickup 0..1 x final barline x {1 kern, 2 kern, kern+text}; + first data cell as chord / rest / decorated note (M<=2)',
                'thorough': 'M<=4 (<=5 data rows when M=4), pickup 0..2, + {2 kern + text}'},
        assumptions=['symbolic numbers are rendered opaquely inside error messages (tripwire: the sentinel must not reach exported text; native re-runs use real formatting)'],
        describe=_desc),
